@@ -68,6 +68,15 @@ def generate(seed, tier, idx=0):
             al.insert(rng.randint(0, len(al)), ["obs", i, v, w])
     case = {"program": prog, "strategy": 3, "stats": stats,
             "probe": rng.random() < 0.5, "sized_model": rng.random() < 0.15}
+    if case["probe"] and rng.random() < 0.3:
+        # a subscriber that changes the statistic from inside notify (batch monitor
+        # resetting it, capacity guard registering a correction): what is published
+        # afterwards must still equal the query methods at that moment.  Such a
+        # statistic is left out of the end-value comparison.
+        sp = rng.choice(stats)
+        names = sorted(statsext.PUBLISHED[sp["kind"]]) + ["OBSERVATION_ADDED_EVENT"]
+        sp["react"] = [rng.choice(names), rng.randint(1, 4),
+                       rng.choice(["initialize", "register", "register"])]
     n_ev = len(prog["events"])
     if rng.random() < 0.25:
         case["pause_at"] = sorted(set(rng.randint(1, n_ev) for _ in range(rng.choice([1, 2]))))
@@ -127,6 +136,8 @@ def execute(case):
         before = sum(1 for t, e in ref.trace if e == "W")
         for i, sp in enumerate(case["stats"]):
             st = model.stats[i]
+            if sp.get("react"):
+                continue
             obs = [(v, w, t) for (k, v, w, t) in ref.obs if k == i]
             sh = statsext.shadow(sp["kind"], obs, end)
             got = statsext.read_all(st, sp["kind"])
